@@ -89,6 +89,56 @@ fn run_codes<const N: usize>() {
     vk::vk_cover!(ls_apply(&codes, N).map(|m| m != M_DEFAULT).unwrap_or(false), "a list that changes the style");
 }
 
+/// extended colours with a concrete control flow: the introducer and the form are fixed per
+/// harness, the colour values are symbolic (all 256 / 2^24), followed by one concrete code
+fn run_ext(target: u8, rgb: bool) {
+    let mut codes = [0u8; 6];
+    let mut n = 0;
+    codes[n] = target;
+    n += 1;
+    if rgb {
+        codes[n] = 2;
+        codes[n + 1] = vk::any_u8();
+        codes[n + 2] = vk::any_u8();
+        codes[n + 3] = vk::any_u8();
+        n += 4;
+    } else {
+        codes[n] = 5;
+        codes[n + 1] = vk::any_u8();
+        n += 2;
+    }
+    codes[n] = 1;
+    n += 1;
+    let mut parts = std::collections::VecDeque::with_capacity(6);
+    let mut i = 0;
+    while i < 6 {
+        if i < n {
+            parts.push_back(codes[i]);
+        }
+        i += 1;
+    }
+    let got = ls_core(parts);
+    let want = ls_apply(&codes, n);
+    assert!(got.is_some() && want.is_some(), "a well-formed list yields a style");
+    assert!(model_of(got.unwrap()) == want.unwrap(), "extended colours (38/48/58 ; 5 ; n and ; 2 ; r ; g ; b) set exactly their slot and the following code still applies");
+}
+
+macro_rules! ext {
+    ($name:ident, $t:expr, $rgb:expr) => {
+        #[cfg_attr(kani, kani::proof, kani::unwind(14))]
+        #[cfg_attr(not(kani), test)]
+        fn $name() {
+            run_ext($t, $rgb);
+        }
+    };
+}
+ext!(ls_ext_idx_38, 38, false);
+ext!(ls_ext_idx_48, 48, false);
+ext!(ls_ext_idx_58, 58, false);
+ext!(ls_ext_rgb_38, 38, true);
+ext!(ls_ext_rgb_48, 48, true);
+ext!(ls_ext_rgb_58, 58, true);
+
 #[cfg_attr(kani, kani::proof, kani::unwind(14))]
 #[cfg_attr(not(kani), test)]
 fn ls_codes_1() {
